@@ -222,6 +222,38 @@ CLAIMS.update({
                      'real Association + seeded e2e exploration with Lean-defined predicates for the system-level statement',
     },
 })
+CLAIMS['C08'] = {
+    'text': 'Proved in Lean on the L0 shutdown model Sd (two established endpoints + the history of every packet each side ever sent; mirrors Shutdown, '
+            'gatherOutbound / gatherOutboundPriorityPackets / gatherOutboundShutdownPackets / gatherOutboundSackPackets, advanceShutdownAfterDataDrain, '
+            'hasPendingOrInflightData, handleData (state gate, SHUTDOWN-SENT branch, SACK decision), handleSack / processAcknowledgement / postprocessSack, '
+            'handleShutdown / processShutdownAcknowledgement / finishShutdownHandling / retransmitShutdownAck, handleShutdownAck, handleShutdownComplete, '
+            'onShutdownTimeout, onAckTimeout, the state gates of sendPayloadData and OpenStream, close() and the exit paths of readLoop / writeLoop, '
+            'Stream.WriteSCTP / ReadSCTP), for EVERY interleaving of writes on any stream, Shutdown calls on either or both sides, write-loop passes '
+            'with ANY choice of DATA chunks to send or retransmit (cwnd / rwnd / MTU bundling / burst budget / T3, fast-retransmit and RACK marks / stream '
+            'scheduler are an input of the pass, quantified over), deliveries of ANY packet ever sent (loss, duplication, reordering, delay, stale replay of '
+            'DATA, SACK, SHUTDOWN, SHUTDOWN-ACK, SHUTDOWN-COMPLETE), T2 / T3 / delayed-ack expiries, reads and transport failures: '
+            '(1) C08_shutdown_ok_implies_delivered_partial (+ C08_shutdown_nil_on_transport_failure_witness): if Shutdown has returned nil and the local transport did not fail, every message accepted before the call '
+            'has been handed to the peer\'s streams, what the peer read from each stream is an in-order prefix of what was written to it, and every stream that '
+            'reported closure had delivered everything first; (2) C08_no_write_after_shutdown: once a Shutdown call passed its state gate every write is '
+            'rejected and queues nothing, OpenStream is refused; (3) C08_shutdown_states_drained: SHUTDOWN-SENT / SHUTDOWN-ACK-SENT only with nothing queued '
+            'or in flight, Shutdown returns nil only when closed; (4) C08_closed_absorbing, C08_stale_harmless: a closed endpoint never changes or emits, '
+            'replaying any old packet never un-delivers, re-opens or makes Shutdown return early; (5) liveness on explicit schedules for EVERY message count '
+            '(induction over rounds, Shutdown called with all data still queued): fault-free completes on both sides, crossed shutdown completes with both '
+            'calls returning nil, single loss of SHUTDOWN / SHUTDOWN-ACK recovered by T2, lost SHUTDOWN-COMPLETE leaves the peer closing on transport close; '
+            '(6) C08_state_constants, C08_gates_match_code: state numbers and the three translated state gates equal the code\'s. '
+            'The model is tied to the code by line-by-line differential replay against two REAL established associations driven single-threaded under '
+            'testing/synctest (real readLoop and real Shutdown call, write loop stepped explicitly; result of every op and the full state line of both '
+            'endpoints compared) and by the predicate P_C08 evaluated on the implementation\'s own outputs. SYSTEM LEVEL (exploration, kept): synctest e2e '
+            'shutdown scenarios with real loops and timers under seeded fault schedules.',
+    'note': NOTE_COMMON + ' Model abstractions: one DATA chunk per message (<= 1100 bytes in the harness); TSNs / ack points as offsets from the initial TSN '
+            '(wrap-around is C16); which chunks a pass sends is an input checked for well-formedness only (in the replay it is read off the packets the real code '
+            'emitted); receive buffer never full and streams pre-opened; ackMode normal; no ABORT / RECONFIG / FORWARD-TSN / HEARTBEAT traffic. '
+            'Hypothesis of (1): the transport under the caller did not fail - Shutdown also returns nil when closeWriteLoopCh closes because the local read loop '
+            'ended (DESIGN C08 Partial; witness corpus/C08/known/sd_shutdown_nil_on_local_transport_failure.ops). Liveness is proved for the explicit schedules '
+            'named, not for arbitrary fair schedules; blocking of the Shutdown caller and real goroutine interleavings are sampled (synctest), not enumerated.',
+    'technique': 'Lean 4 proof (inductive invariant over all op lists of a two-endpoint + packet-history model; induction over rounds for liveness) '
+                 '+ model/implementation differential replay + executable predicate on implementation outputs + e2e scenarios',
+}
 
 _PENDING = 'check not built yet in this round (planned, see DESIGN.md §5/§8); not claimed until its theorems and correspondence run'
 NOT_APPLICABLE = {p: _PENDING for p in ['C%02d' % i for i in range(1, 21)] if p not in CLAIMS}
